@@ -1,6 +1,7 @@
 import Operon.Model.Proto
 import Operon.Model.Cascade
 import Operon.Model.CascadeObs
+import Operon.Model.CascadeTr
 /-! Line-protocol driver for the cascade model (C19). -/
 open Operon Operon.Proto Operon.Cascade
 
@@ -14,6 +15,7 @@ structure DSt where
   badRuns : Nat := 0
   obs : Option StageObs := none       -- `on_stage_complete` script
   nests : List Bool := []            -- per stage: does its processor re-enter run() on the same cascade (search-only op)
+  cobs : Option CascObs := none      -- `on_cascade_complete` script
 
 def mkStage (i : Nat) (cp pr eh : String) (req : Bool) (amp : Rat) : Stage Nat :=
   { checkpoint :=
@@ -57,6 +59,9 @@ def step (st : DSt) (toks : List String) : DSt × String :=
       else if k = "always" then some fun _ => .raise
       else some fun i => if i == natD ((k.drop 3).toString) then .raise else .ok ()      -- at:<i>
     ({ st with obs := o }, "ok")
+  | ["cobserver", k] =>
+    let o : Option CascObs := if k = "none" then none else if k = "ok" then some fun _ => .ok () else some fun _ => .raise
+    ({ st with cobs := o }, "ok")
   | "shadow" :: _ => (st, "ok")          -- another cascade object is created next to this one: must not matter
   | ["mapk", h, m, a1, a2, a3] =>
     -- the shipped MAPKCascade preset; signals are abstracted to the tier they carry (0 = raw input, k = dict of tier k)
@@ -84,13 +89,18 @@ def step (st : DSt) (toks : List String) : DSt × String :=
     | some i => ({ st with stages := st.stages.eraseIdx i, names := st.names.eraseIdx i, nests := st.nests.eraseIdx i }, "1")
     | none => (st, "0")
   | ["run", x] =>
+    -- with an `on_cascade_complete` observer the line shows the result the observer was shown (= the one returned), and
+    -- `craise` when the observer raised (then `run` raises: nothing is returned)
+    let cmark : String := match st.cobs with
+      | none => ""
+      | some _ => (match (resultC st.cfg st.obs st.cobs st.stages (natD x)).1 with | .ok _ => " cshown" | .raise => " cshown craise")
     let render (ro : Result Nat × List Nat) : String :=
       let r := ro.1
       let fin := match r.final with | some v => s!"some:{v}" | none => "none"
       joinSp [showBool r.success, fin, toString r.completed, toString r.total, showRat r.amplification,
         (match r.blockedAt with | some i => st.names.getD i "?" | none => "none"),
         showList (r.results.map fun x => s!"{x.idx}{showStatus x.status}:{showRat x.factor}"),
-        showList (r.log.map showEv), showList (ro.2.map toString)]
+        showList (r.log.map showEv), showList (ro.2.map toString)] ++ cmark
     let outer := resultO st.cfg st.obs st.stages (natD x)
     -- every `nest` processor that ran started one run of the same cascade on signal 3; that run is independent of the
     -- run it was started from
